@@ -320,9 +320,11 @@ def t_fmt(ops):
                      for n, bs in ops)
 
 
-def t_check(g, hist):
+def t_check(g, hist, skip=()):
     f = TwinGraph(fresh_bases=g.bases)
     for s in range(T_N):
+        if s in skip:
+            continue
         S = g.nodes[s]
         r = reach(g.bases, s)
         sro = [g.index(x) for x in S.__sro__]
@@ -344,6 +346,8 @@ def t_check(g, hist):
                 raise Violation('history [%s] (IT#a/IT#b: same name, distinct objects): %s.isOrExtends(%s) is %s, reachability over the current '
                                 '__bases__ says %s' % (t_fmt(hist), T_NAMES[s], T_NAMES[t], got, exp), signature='C02:twins:isOrExtends')
     for i in T_IFACES:
+        if T_P in skip:
+            break
         r = reach(g.bases, T_P)
         exp = i in r or (i in T_TWIN and T_TWIN[i] in r)
         if bool(g.nodes[i].providedBy(g.keep[1])) != exp:
@@ -356,12 +360,13 @@ def run_twin_history(ops):
     t_check(g, ())
     for k, (node, bases) in enumerate(ops):
         g.rebase(node, bases)
-        # outside the claim: a specification that reaches both twins (its resolution order merges by equality)
+        # outside the claim: a specification that reaches both twins (its resolution order merges by equality); the others are checked
+        skip = set()
         for s in range(T_N):
             r = reach(g.bases, s)
             if T_TA in r and T_TB in r:
-                return
-        t_check(g, ops[:k + 1])
+                skip.add(s)
+        t_check(g, ops[:k + 1], skip)
 
 
 def make_e_twins(params, part, nparts):
